@@ -196,6 +196,8 @@ def run(ctx):
                                    ppn=rng.choice([d for d in range(1, P + 1) if P % d == 0]), ordering=rng.choice([0, 1, 2]))
                   for k in range(12)]
         run_scenario(ctx, "comm", "drv_comm", [c["line"] for c in cases], P, K)
+        # the same constructions with a few messages sent (and receives posted) up to 20 ms late
+        run_scenario(ctx, "comm_late", "drv_comm", [c["line"] for c in cases[:12]], P, max(2, K // 2), late_us=20000)
         pc = []
         for k in range(16):
             c = C02par.gen_parcase(rng, "p%d_%d" % (P, k), P)
